@@ -57,7 +57,7 @@ PROGRAMS = [
     ("batchsub", "batchsub", 30, 1, 0, "q", False, "BatchBoolean Subtract"),
     ("batch200", "batch", 200, 3, 0, "t", False, "BatchBoolean of 200 parts"),
     ("hull3k", "hull", 3000, 1, 1, "q", True, "Hull of 3000 points on a sphere (9k halfedges..)"),
-    ("hull20k", "hull", 20000, 1, 1, "q", False, "Hull of 20000 points on a sphere"),
+    ("hull20k", "hull", 20000, 1, 1, "t", False, "Hull of 20000 points on a sphere"),
     ("hullin", "hull", 20000, 2, 0, "q", True, "Hull of 20000 points in a cube (few extreme)"),
     ("mink", "mink", 12, 0, 0, "q", True, "Minkowski sum, non-convex x convex (autoPolicy 100)"),
     ("minkd", "mink", 8, 0, 1, "q", False, "Minkowski difference"),
@@ -227,7 +227,8 @@ def run(cx):
             per_prog[pid]["configs"] += 1
             per_prog[pid]["distinct_hashes"].add(h)
             r = ref.get((pid, 0))
-            if r and r[0] != h and pid not in diffs:
+            # keep one witness per program, preferring a simulated schedule (replayable from its seed)
+            if r and r[0] != h and (pid not in diffs or (name.startswith("sim/") and not diffs[pid][0].startswith("sim/"))):
                 df = sorted(k for k in fields if r[1].get(k) != fields[k])
                 diffs[pid] = (name, rep, h, r[0], df)
     for name, rc, tail in crashed:
@@ -243,7 +244,10 @@ def run(cx):
         cx.violation(key, "program %s (%s): export differs between seq build and %s (rep %d): fields %s; %d distinct hashes over %d runs" % (
             pid, pmap[pid][7], name, rep, ",".join(df), len(per_prog[pid]["distinct_hashes"]), per_prog[pid]["configs"]),
             {"program": prog_line(pmap[pid]), "harness": "harness/c04_det.cpp", "config_a": "seq build, no arguments", "config_b": name,
-             "hash_a": h0, "hash_b": h, "differing_fields": df,
+             "hash_a": h0, "hash_b": h, "differing_fields": df, "rep_b": rep,
+             "deterministic": name.startswith("sim/"),
+             "note": ("sim build: single-threaded seeded schedule, run `c04_det seed=<S> reps=<rep_b+1>` with S from config_b and read repetition rep_b"
+                      if name.startswith("sim/") else "real TBB: schedule is not controlled; differs within a few repetitions"),
              "how": "echo '<program>' | build/h-c04_det-<variant>-*/c04_det [threads=N reps=R | seed=S reps=R]"})
     # flagged sites must be confirmed by a concrete differing hash, otherwise they are a broken obligation
     for r in flagged:
